@@ -22,7 +22,7 @@ import errno
 import posixpath
 import re
 from http import client
-from urllib.parse import unquote, urlparse
+from urllib.parse import unquote, urlsplit
 
 from radicale import httputils, pathutils, storage, types
 from radicale.app.base import Access, ApplicationBase
@@ -51,7 +51,7 @@ class ApplicationPartMove(ApplicationBase):
                 path: str, user: str) -> types.WSGIResponse:
         """Manage MOVE request."""
         raw_dest = environ.get("HTTP_DESTINATION", "")
-        to_url = urlparse(raw_dest)
+        to_url = urlsplit(raw_dest)
         to_netloc_with_port = to_url.netloc
         if to_url.port is None:
             to_netloc_with_port += (":443" if to_url.scheme == "https"
